@@ -19,7 +19,7 @@ import felupe.tools._newton as _newton_mod
 from scipy.sparse import csr_matrix
 
 from .. import gen, jobsim, world
-from ..kernel import Discard, InjectedFault, Streams, Violation, close_exact_twin
+from ..kernel import Discard, InjectedFault, Streams, Violation, close_exact_twin, pick
 from ..sched import SimPool
 from .C15 import apply_model_ramp, defgrad
 
@@ -406,7 +406,7 @@ def run(doc, log):
         raise Violation(PROP, "fd-tangent", f"undocumented exception {type(exc).__name__}: {exc}", site="job.exc")
     fired = [f["kind"] for f in eng.fired]
     nconv = len(eng.callbacks)
-    if doc["seed"] % 5 == 0:
+    if pick(doc["seed"], "umat-kwargs", 5) == 0:
         kwargs_check(doc, log)
     sig = "|".join(
         [
